@@ -51,6 +51,11 @@ def main(argv=None):
       return 0
     return rc
   except model.AnalysisError as e:
+    if report.unlisted_violations(chk) and not args.replay:
+      # Rules that ran before the analysis stopped already found violations: report those (the verdict stands),
+      # and say that the remaining rules could not be evaluated on this tree.
+      print(f'ANALYSIS-INCOMPLETE: property={pid} {e} — the violations below were established before the analysis stopped')
+      return chk.finish(explanation=f'incomplete run: {e}', trusted_base=['python ast'], analysed={})
     print(f'ANALYSIS-ERROR: property={pid} {e}')
     return 2
   except Exception:  # a crash is never a verdict
